@@ -473,6 +473,12 @@ def _disk_items(quick, salt):
     for ci in range(ncorp):
         for k in range(0, len(filters), 150):
             yield ("disk", ci, salt, filters[k:k + 150])
+    if quick:
+        # the three-operand structures on the corpora with six jobs (results larger than the restriction next to them)
+        heavy = [f for f, _, tag in all_filters(quick) if tag in ("or+sibling", "and-or", "or-and")]
+        for ci in (2, 4, 5):
+            for k in range(0, len(heavy), 150):
+                yield ("disk", ci, salt, heavy[k:k + 150])
     for ci in range(ncorp):
         yield ("session", ci, salt)
 
